@@ -89,7 +89,7 @@ func c12Run(c *Ctx, cs c12Case, probe string) {
 	}
 	c.Count(key)
 	if res.Fail != nil {
-		c.Violation("client-run-failed-"+res.Fail.Kind, fmt.Sprintf("case %+v: %v", cs, res.Fail), cs)
+		c.Violation("client-run-failed-"+res.Fail.Kind, fmt.Sprintf("case %s: %v", c12Show(cs), res.Fail), c12Short(cs))
 		return
 	}
 	if got.Err != "" {
@@ -122,9 +122,19 @@ func c12Run(c *Ctx, cs c12Case, probe string) {
 	}
 	if strings.Join(lines, "") != strings.Join(wantL, "") || len(lines) != len(wantL) || got.Status != 0 {
 		c.Violation("decoded-request-differs-from-encoded", fmt.Sprintf("regex %q invert=%v before=%d after=%d max=%d plain=%v quiet=%v: status %d, %d lines selected end-to-end, %d by the pattern applied directly; first difference: %s",
-			cs.Regex, cs.Invert, cs.Before, cs.After, cs.Max, cs.Plain, cs.Quiet, got.Status, len(lines), len(wantL), firstDiff(lines, wantL)), cs)
+			c12Short(cs).Regex, cs.Invert, cs.Before, cs.After, cs.Max, cs.Plain, cs.Quiet, got.Status, len(lines), len(wantL), firstDiff(lines, wantL)), c12Short(cs))
 	}
 }
+
+// c12Short abbreviates a very long pattern for messages and replay files.
+func c12Short(cs c12Case) c12Case {
+	if len(cs.Regex) > 200 {
+		cs.Regex = fmt.Sprintf("%s...(%d bytes: q00000|q00001|...|a;)", cs.Regex[:40], len(cs.Regex))
+	}
+	return cs
+}
+
+func c12Show(cs c12Case) string { return fmt.Sprintf("%+v", c12Short(cs)) }
 
 func firstDiff(a, b []string) string {
 	for i := 0; i < len(a) || i < len(b); i++ {
@@ -236,6 +246,15 @@ func c12Cases(thorough bool) (out []c12Case) {
 	// shapes that regexp (or an optimisation in front of it) may treat specially: literals anchored at one or both
 	// ends, flags, alternation under anchors, word boundaries, repetition, classes
 	res = append(res, "^a$", "^a b$", `\Aa\z`, "^ab", "ab$", "^$", "(?i)A", "(?i)^A$", "(?m)^a$", "(?s)a.b", "^a|b$", `\ba\b`, "a{2}", "[ab]", "a+", "a?b", "^a:;,%=é$", "^(a)$", "(?:^a$)", `^\|$`, `\.`, "a*")
+	// long patterns (a user-built alternation): lengths around the sizes of the buffers on the way (4 KiB, 32 KiB
+	// transport reads, 64 KiB); only the LAST alternative matches anything in the probe file
+	for _, n := range []int{1000, 3060, 4100, 8200, 33000, 70000} {
+		var sb strings.Builder
+		for i := 0; sb.Len() < n; i++ {
+			fmt.Fprintf(&sb, "q%05d|", i)
+		}
+		res = append(res, sb.String()+"a;")
+	}
 	small := [][3]int{{0, 0, 0}, {1, 0, 0}, {0, 7, 1}, {-1, -1, -1}}
 	for _, r := range res {
 		for _, inv := range []bool{false, true} {
